@@ -506,7 +506,7 @@ func c03Spec(r *ev.Run, stream string, idx, mi int) gen.MsgSpec {
 
 func runC03(r *ev.Run, rep *ev.ReplayDoc) ev.Summary {
 	sum := ev.Summary{
-		Rule: "batches of 1-3 seeded messages (C01 shapes, canonical CRLF; for every fourth batch the server sends all its replies as multi-line replies) sent through Send / DialAndSend / SendWithSMTPClient under single faults enumerated per batch: every content producer failing before/inside/after its data; the transport failing writes at offsets of every class inside each message's DATA phase (first byte, header block, every boundary line, part bodies, closing boundary, terminating dot) taken from a dry run; every reply class {4yz,5yz,drop} at every command position, plus 'queued, but the connection dies before the 250 leaves' at end-of-data; plus fault pairs (producer x reply, transport x reply) for small batches; every transport fault, every producer fault inside or after its data and the 4yz/drop replies at DATA / end-of-data / RSET are also run with a retry (the undelivered *Msg values are sent again by a new call over a healthy connection: each must be committed once, complete). Producer faults are also run on messages an earlier fault-free call has already delivered (the failure of the later call still has to be reported on the Msg). Also calls whose context is cancelled by the caller while a message is being produced (no fault), and pairs of overlapping calls on one established connection (the second Send starts while the first call is inside its DATA phase). Oracle compares the reference server's commit log with the complete renderings. non-trivial = a fault was injected; distinct by (batch, fault)",
+		Rule: "batches of 1-3 seeded messages (C01 shapes, canonical CRLF; for every fourth batch the server sends all its replies as multi-line replies) sent through Send / DialAndSend / SendWithSMTPClient under single faults enumerated per batch: every content producer failing before/inside/after its data; the transport failing writes at offsets of every class inside each message's DATA phase (first byte, header block, every boundary line, part bodies, closing boundary, terminating dot) taken from a dry run; every reply class {4yz,5yz,drop} at every command position, plus 'queued, but the connection dies before the 250 leaves' at end-of-data; plus fault pairs (producer x reply, transport x reply) for small batches; every transport fault, every producer fault inside or after its data and the 4yz/drop replies at DATA / end-of-data / RSET are also run with a retry (the undelivered *Msg values are sent again by a new call over a healthy connection: each must be committed once, complete). Producer faults are also run on messages an earlier fault-free call has already delivered (the failure of the later call still has to be reported on the Msg). Also fault-free messages whose bodies begin with a dot, calls whose context is cancelled by the caller while a message is being produced (no fault), and pairs of overlapping calls on one established connection (the second Send starts while the first call is inside its DATA phase). Oracle compares the reference server's commit log with the complete renderings. non-trivial = a fault was injected; distinct by (batch, fault)",
 		Assumptions: []string{
 			"expected renderings are produced by the harness after the call with all producer faults disarmed (rendering is repeatable, C11)",
 			"what counts as committed is what the reference server received between 354 and CRLF.CRLF and acknowledged with 2yz",
@@ -687,6 +687,33 @@ func runC03(r *ev.Run, rep *ev.ReplayDoc) ev.Summary {
 		if i%401 == 0 {
 			r.Sample(map[string]any{"batch": len(c.Specs), "via": c.Via, "fault_class": c.FailClass, "script": scriptString(c.Script), "write_fail_at": c.WriteFail})
 		}
+	})
+	// fault-free batches whose bodies begin with a dot (a line with nothing but a dot, a dot followed by text): the first
+	// line of a body sits at a line start like any other
+	var dc []c03Case
+	dn := 0
+	for _, enc := range []string{"quoted-printable", "8bit", "base64"} {
+		for _, body := range []string{".\r\nsecond line\r\n", ".signature line\r\nmore text\r\n", "..\r\n.\r\n...\r\n", ".", ".\r\n"} {
+			for _, via := range []string{"send", "dialandsend"} {
+				for nparts := 1; nparts <= 2; nparts++ {
+					dn++
+					sp := gen.MsgSpec{ID: fmt.Sprintf("c03-dot-%d", dn), Enc: enc, Subject: "leading dot", From: gen.AddrSpec{Addr: "m0@sender.example"},
+						To: []gen.AddrSpec{{Addr: "r0m0@rcpt.example"}}}
+					for k := 0; k < nparts; k++ {
+						ps := gen.PartSpec{Type: []string{"text/plain", "text/html"}[k], Content: []byte(body)}
+						if dn%3 == 0 {
+							ps.Via, ps.Chunk = "writer", []int{1, 2, 64}[dn%3]
+						}
+						sp.Parts = append(sp.Parts, ps)
+					}
+					dc = append(dc, c03Case{Via: via, WriteFail: -1, FailClass: "none:body-starts-with-a-dot", Specs: []gen.MsgSpec{sp}})
+				}
+			}
+		}
+	}
+	r.ParallelN(8, len(dc), func(i int) {
+		runC03Case(r, dc[i])
+		r.Eval(dc[i].Specs[0].ID+"|"+dc[i].Via, false)
 	})
 	// the caller's context ends while a message is being produced (no fault at all)
 	var xc []c03Case
